@@ -219,9 +219,15 @@ fn check_case(c: &Case, tier: Tier, acc: &Acc, l: &mut Local) {
     // the largest filler keeps the template at exactly 65 535 lines (the property's bound)
     let vmax = 65535usize.saturating_sub(target_lines);
     let vs: Vec<usize> = if tier == Tier::Thorough { vec![1, 2, 17, vmax] } else { vec![1, 17, vmax] };
-    for (filler, fname) in [("x\n", "lf"), ("x\r\n", "crlf")] {
+    // fillers: text lines (one instruction however many), and lines of code (three and more
+    // instructions each, so the largest filler puts the failing construct behind some 200 000
+    // instructions; for run-time errors and the hand-written syntax faults)
+    for (filler, fname) in [("x\n", "lf"), ("x\r\n", "crlf"), ("{{ 1 }}\n", "code"), ("{% if 1 %}{{ [1][0]|string|upper }}{% endif %}{# c #}\n", "code_mixed")] {
         for &n in &vs {
             if fname == "crlf" && n == 17 && tier == Tier::Quick {
+                continue;
+            }
+            if fname.starts_with("code") && (!(c.family == "runtime" || c.family == "syntax_classic") || (n != vmax && n != 17) || (fname == "code_mixed" && tier == Tier::Quick && n == 17)) {
                 continue;
             }
             let c2 = shifted(c, filler, n, "");
@@ -532,7 +538,7 @@ pub fn main(args: Args) -> i32 {
             level: "exploration",
             tier: args.tier,
             seed: args.seed,
-            rule: "syntax errors: a corpus of 29 hand-written templates covering every tag and literal form plus every 13th depth-1 generator program, truncated at every character boundary (also with multi-byte text in front) and with 12 stray tokens inserted at every (quick: every other) boundary, plus 37 classic faults; run-time errors: 32 failing constructs (eleven of them raised by instructions without a span of their own, five of those after a nested sub-expression) x 34 placements (plain, for, if/else, with, macro, call block, set block, filter block, autoescape, child block, parent block, super, include, include in loop, imported macro, import top level, recursive loop, three-level inheritance, after earlier statements of the same template (namespace attribute assignments, unpacking, macros and call blocks, filter and set blocks, nested expressions, if chains), and after multi-line string literals / tags / comments / raw blocks / CRLF lines) with the expected template and line computed from the placement; every failing case is re-run with 1/17/65 533 (thorough also 2) filler lines above (LF and CRLF) and with 3-byte, multi-byte and 70 000-byte prefixes; oracle: located name+line inside the named source for the error and every located cause, kind/detail/name unchanged and line shifted by exactly N, ranges in bounds, on char boundaries, equal to the named template's source and shifted by the inserted byte count, all five formatting forms succeed; residue: every failing case is re-run on a fresh OS thread after each of 12 prior templates (one per statement kind, three failing to compile half way) was compiled on that thread with its construct on the failing line, and the full location (every chain entry, lines, ranges) must equal the one from a fresh thread without a prior. distinct non-trivial = distinct failing template sets".into(),
+            rule: "syntax errors: a corpus of 29 hand-written templates covering every tag and literal form plus every 13th depth-1 generator program, truncated at every character boundary (also with multi-byte text in front) and with 12 stray tokens inserted at every (quick: every other) boundary, plus 37 classic faults; run-time errors: 32 failing constructs (eleven of them raised by instructions without a span of their own, five of those after a nested sub-expression) x 34 placements (plain, for, if/else, with, macro, call block, set block, filter block, autoescape, child block, parent block, super, include, include in loop, imported macro, import top level, recursive loop, three-level inheritance, after earlier statements of the same template (namespace attribute assignments, unpacking, macros and call blocks, filter and set blocks, nested expressions, if chains), and after multi-line string literals / tags / comments / raw blocks / CRLF lines) with the expected template and line computed from the placement; every failing case is re-run with 1/17/65 533 (thorough also 2) filler lines of text above (LF and CRLF), run-time errors and classic faults also with 17 and 65 533 lines of code above (print statements; if + attribute + filter + comment), which puts the failing construct behind up to 5e5 instructions, and with 3-byte, multi-byte and 70 000-byte prefixes; oracle: located name+line inside the named source for the error and every located cause, kind/detail/name unchanged and line shifted by exactly N, ranges in bounds, on char boundaries, equal to the named template's source and shifted by the inserted byte count, all five formatting forms succeed; residue: every failing case is re-run on a fresh OS thread after each of 12 prior templates (one per statement kind, three failing to compile half way) was compiled on that thread with its construct on the failing line, and the full location (every chain entry, lines, ranges) must equal the one from a fresh thread without a prior. distinct non-trivial = distinct failing template sets".into(),
             exhaustive: true,
             bound: json!({"vertical": [1, 2, 17, 65533], "horizontal": [3, 5, 70000]}),
             assumptions: vec!["Strict undefined mode so that undefined reads are errors".into(), "cases that compile and render successfully are skipped (counted in the outcome histogram)".into()],
